@@ -20,7 +20,8 @@ def run(ctx):
     dgcheck.setup(ctx, "C14", ["RegTables", "Consts"], ["OsacaVerif.Props.C14"])
     n = (60 if ctx.tier == "quick" else 1500) * (3 if ctx.broken else 1)
     distinct = set()
-    for im, src in dgcheck.kernels_stream(ctx, n, 8 if ctx.tier == "quick" else 14, big=True):
+    for im, src in dgcheck.kernels_stream(ctx, n, 8 if ctx.tier == "quick" else 14, big=True,
+                                          kinds=["plain", "mem", "memdep", "coupled", "coupled", "wbmix", "wbmix"]):
         lines = im.lines
         if len(lines) < 2 or (16 < len(lines) < 50):
             continue
@@ -39,7 +40,16 @@ def run(ctx):
             rot = lines[r:] + lines[:r]
             order = list(range(r, len(lines))) + list(range(r))
             try:
-                im2 = dgcheck.Impl(im.isa, im.arch, rot, im.fd, im.mm)
+                # every third rotation on a freshly loaded machine model (as a new command-line run has it): anything a model
+                # object remembers from the unrotated analysis must not be what makes the rotations agree
+                mm2 = im.mm
+                if ctx.counts.get("rotations", 0) % 3 == 0 and im.arch != "synisa":
+                    from osaca.semantics import MachineModel
+
+                    MachineModel._runtime_cache.clear()
+                    mm2 = MachineModel(arch=im.arch)
+                    ctx.count("rotations_on_fresh_model")
+                im2 = dgcheck.Impl(im.isa, im.arch, rot, im.fd, mm2)
             except Exception as e:  # noqa
                 ctx.violation("analysis of a rotated kernel raised %s" % type(e).__name__, dict(im.info(), rotation=r))
                 continue
